@@ -235,7 +235,7 @@ def check(tier: str) -> int:
     runs = [("exhaustive", dict(ALL, MaxOps="2", MaxFault="2" if thorough else "1", Kinds=seq, MaxSched="0"), None),
             # call - tick - call on the templates that show the clock; call - edit - call on those that load partials
             ("clock", {"MaxOps": "3", "MaxFault": "0", "Kinds": '{"call", "tick"}', "MaxSched": "0", "TSet": "{6, 7}", "DSet": "{}" if thorough else "{1}"}, None),
-            ("loader", {"MaxOps": "3", "MaxFault": "1" if thorough else "0", "Kinds": '{"call", "edit"}', "MaxSched": "0", "TSet": "{4, 5, 9}", "DSet": "{1}"}, None),
+            ("loader", {"MaxOps": "3", "MaxFault": "1" if thorough else "0", "Kinds": '{"call", "edit"}', "MaxSched": "0", "TSet": "{4, 5, 9, 10}", "DSet": "{1}"}, None),
             ("pairs", dict(ALL, MaxOps="1", MaxFault="0", Kinds='{"pair"}', MaxSched="6" if thorough else "5"), None),
             ("random", dict(ALL, MaxOps="8" if thorough else "6", MaxFault="3", Kinds='{"call", "tick", "edit", "pair"}', MaxSched="4"),
              f"num={6000 if thorough else 1500}")]
